@@ -23,6 +23,11 @@ claim("C12", "DESIGN.md §4 C12, §3.4",
       "Decides the structural clauses C12.F1-F4 (every one of the generated struct/enum folds rebuilds every field exactly once from itself, range mapped once with the context taken before children; Foldable for Vec/Option/Box shape-preserving), C12.V1 (default Visitor visits every node-typed field exactly once with the right method; exhaustive dispatch) and C12.O1 (optimizer special-cases only load-context all-constant tuples). Together F1-F4 are a proof by structural induction that an identity folder is the identity and map_user runs once per range-carrying node. These are necessary conditions checked for ALL node kinds, which sampling trees cannot give.",
       "Static rule discharge over ast/src/gen/{generic,fold,visitor}.rs, ast/src/fold.rs, ast/src/optimizer.rs." + COMMON_NOTE)
 
+claim("C01", "DESIGN.md §4 C01, §2.2, §3.1-3.3",
+      "static analysis: translation validation of python.rs against lalrpop(python.lalrpop) (G1); table agreement of keyword/operator/start-marker tables against Python 3.11 refdata; dataflow over grammar actions (context discipline, binding-order vs ASDL source order); deviant-alternative rules",
+      "Decides structural necessary conditions only: (G1) the compiled python.rs equals the regenerated parser for the checked-in grammar, so every grammar-level rule speaks about the compiled parser; (T1-T4) keyword, operator, operator-tag and start-marker tables equal the Python 3.11 reference tables; (X1) load/store/del discipline: every ctx literal is Load except the two binding targets, all 8 target positions go through set_context, set_context covers every ctx-carrying Expr variant; (O1) in every AST literal of every action the fields take their values from bindings in reference source order (catches swapped operands/branches in any un-snapshotted production); (D1/D2) trailing-comma singleton and paren-sensitive flag deviants; (S1/S2) the soft-keyword pass is a same-range relabelling whose look-ahead flags are top-level-only; (I1, X2) import dots and argument partition order. It does not decide that the grammar accepts exactly Python or that node kinds are the reference's for every program.",
+      "Static rule discharge over parser/src/python.lalrpop, python.rs, build.rs, token.rs, soft_keywords.rs, context.rs, function.rs, parser.rs, ast/src/gen/generic.rs; oracle tables refdata/py311_tokens.json, py311_ops.json, asdl_source_order.json; the lalrpop 0.20.2 generator is trusted as the regeneration oracle." + COMMON_NOTE)
+
 def main():
     props = [json.loads(l) for l in open(os.path.join(HERE, "properties.jsonl"))]
     checks, na = [], []
